@@ -107,6 +107,7 @@ type Ctx struct {
 	deadline    time.Time
 	only        string // replay filter: only report this signature
 	notes       []string
+	herrs       []string
 	inexhaustive bool
 }
 
@@ -157,6 +158,9 @@ func (c *Ctx) Sample(v interface{}) {
 }
 
 func (c *Ctx) Note(s string) { c.notes = append(c.notes, s) }
+
+// HarnessError reports a defect of the machinery itself (e.g. a replay divergence): the run exits 2, never 1.
+func (c *Ctx) HarnessError(s string) { c.herrs = append(c.herrs, s) }
 
 // NotExhaustive marks that this case cut its space short.
 func (c *Ctx) NotExhaustive(why string) { c.inexhaustive = true; c.Note(why) }
@@ -301,12 +305,13 @@ type delta struct {
 	CasesDone int               `json:"cd,omitempty"`
 	Skipped  int                `json:"sk,omitempty"`
 	Inexh    bool               `json:"ix,omitempty"`
+	HErrs    []string           `json:"he,omitempty"`
 	Done     bool               `json:"done,omitempty"`
 }
 
 func (c *Ctx) flush(casesDone, skipped int, done bool) {
 	d := delta{Evals: c.evals, NT: c.ntNew + c.ntExtra, Counters: c.counters, Maxes: c.maxes, Obs: c.obsNew,
-		Samples: c.samples, Viol: c.viol, VCount: c.violCount, Notes: c.notes, CasesDone: casesDone, Skipped: skipped, Inexh: c.inexhaustive, Done: done}
+		Samples: c.samples, Viol: c.viol, VCount: c.violCount, Notes: c.notes, CasesDone: casesDone, Skipped: skipped, Inexh: c.inexhaustive, Done: done, HErrs: c.herrs}
 	b, err := json.Marshal(d)
 	if err != nil {
 		// a sample or detail that cannot be marshalled: drop samples
@@ -327,6 +332,7 @@ func (c *Ctx) flush(casesDone, skipped int, done bool) {
 	c.viol = nil
 	c.violCount = map[string]int64{}
 	c.notes = nil
+	c.herrs = nil
 	c.inexhaustive = false
 	c.lastFlush = time.Now()
 }
@@ -519,6 +525,7 @@ func (p *Parent) merge(d *delta) {
 	if d.Inexh {
 		p.inexh = true
 	}
+	p.harnessErr = append(p.harnessErr, d.HErrs...)
 	for _, v := range d.Viol {
 		g := p.groups[v.Sig]
 		if g == nil {
